@@ -102,7 +102,7 @@ def _r1(ctx):
          recognised=bool(call) and len(call[0].args) > 1)
     # --- LCD cell / LatencyLCD
     dv = _dict_value(fd, "LatencyLCD", "LatencyCP")
-    text_src = pm.find("M_l = {M_i.line_number: M_lat for M_i, M_lat in M_d[M_v]['dependencies']}", cv.node)
+    text_src = pm.find("M_l = {M_i.line_number: M_lat for M_i, M_lat in M_e['dependencies']}", cv.node)
     text_use = bool(call) and text_src and U(call[0].args[2]) == "%s.get(%s)" % (
         U(text_src[0][1]["M_l"]), U(call[0].args[0]).replace("instruction_form.line_number", "line_number"))
     text_use = bool(call) and bool(text_src) and U(call[0].args[2]).startswith(U(text_src[0][1]["M_l"]) + ".get(")
@@ -110,7 +110,7 @@ def _r1(ctx):
         pair("LCD cell / LatencyLCD", False, fd.where(), "dict has no LatencyLCD")
     else:
         attr = _origin_attr(dv)
-        dict_src = pm.find("M_l = {M_i.line_number: M_lat for M_i, M_lat in M_d[M_v]['dependencies']}", fd.node)
+        dict_src = pm.find("M_l = {M_i.line_number: M_lat for M_i, M_lat in M_e['dependencies']}", fd.node)
         via_map = bool(dict_src) and pm.match("float(%s.get(M_x.line_number, M_z))" % U(dict_src[0][1]["M_l"]), dv) is not None
         if via_map:
             z = pm.match("float(%s.get(M_x.line_number, M_z))" % U(dict_src[0][1]["M_l"]), dv)["M_z"]
@@ -318,9 +318,13 @@ def _r2(ctx):
                   [U(a) for a in t[0].args[:2]], [U(a) for a in d[0].args[:2]]), f.qname, "same analysis objects")
     tk = {k.arg: U(k.value) for k in t[0].keywords}
     dk = {k.arg: U(k.value) for k in d[0].keywords}
+    fa_, fd_ = ctx.func("Frontend.full_analysis"), ctx.func("Frontend.full_analysis_dict")
     for w in ("arch_warning", "length_warning", "lcd_warning"):
-        ctx.check(w in tk and tk.get(w) == dk.get(w), "R2", "%s identical for both outputs" % w, f.where(d[0]),
-                  "%s differs: text %s, dict %s" % (w, tk.get(w), dk.get(w)), f.qname, "flag " + w)
+        # what each output works with: the argument, or what the callee derives itself when it is not given
+        te, de = C.effective_argument(f, t[0], fa_, w), C.effective_argument(f, d[0], fd_, w)
+        ctx.judge(te is not None and te == de and te not in ("None", "False"), te is not None and de is not None, "R2",
+                  "%s identical for both outputs" % w, f.where(d[0]),
+                  "%s differs: text %s, dict %s" % (w, te, de), f.qname, "flag " + w)
     # the kernel handed over is the analysed one
     kname = U(t[0].args[0])
     sem = C.calls_to(f.node, "add_semantics")
@@ -403,6 +407,17 @@ def _line_pred_of_kernel_expr(e, kernel):
     inner, kind = e, "exists"
     if isinstance(e, ast.Call) and isinstance(e.func, ast.Name) and e.func.id == "len" and len(e.args) == 1:
         inner, kind = e.args[0], "count"
+    elif isinstance(e, ast.Call) and isinstance(e.func, ast.Name) and e.func.id == "sum" and len(e.args) == 1 \
+            and isinstance(e.args[0], (ast.GeneratorExp, ast.ListComp)) and C.const_num(e.args[0].elt) == 1:
+        inner, kind = e.args[0], "count"        # sum(1 for x in kernel if P) counts like len([.. if P])
+    elif isinstance(e, ast.Call) and isinstance(e.func, ast.Name) and e.func.id == "sum" and len(e.args) == 1 \
+            and isinstance(e.args[0], (ast.GeneratorExp, ast.ListComp)) and len(e.args[0].generators) == 1 \
+            and not e.args[0].generators[0].ifs and U(e.args[0].generators[0].iter) == kernel:
+        # sum(P(x) for x in kernel): a count of the lines satisfying P
+        g0 = e.args[0]
+        p0 = _flag_pred(g0.elt, U(g0.generators[0].target))
+        if p0 is not None:
+            return "count", p0
     if isinstance(inner, ast.Compare) and len(inner.ops) == 1 and isinstance(inner.ops[0], (ast.Gt, ast.NotEq)) and C.const_num(inner.comparators[0]) == 0:
         r = _line_pred_of_kernel_expr(inner.left, kernel)
         return ("exists", r[1]) if r and r[0] == "count" else None
@@ -466,6 +481,70 @@ def _pred_equal(p, q):
     return True, None
 
 
+def _fold_flags(ctx, fn, nflags):
+    """{tuple of flag values: returned string} of a report helper that only concatenates constants depending on its boolean
+    parameters (folded, not run); None when it is not foldable."""
+    import itertools
+    from .. import consteval
+    g = dict(fn.module.globals)
+    cls_consts = {}
+    if fn.cls is not None:
+        for k in ctx.repo.mro(fn.cls.name):
+            for a_, v_ in ctx.repo.cls(k).class_attrs.items():
+                cls_consts.setdefault(a_, v_)
+    out = {}
+    for combo in itertools.product((True, False), repeat=nflags):
+        selfobj = consteval.Obj()
+        for a_, v_ in cls_consts.items():
+            try:
+                selfobj[a_] = consteval.ev(v_, {"__globals__": g})
+            except (consteval.Unsupported, consteval.Raised):
+                pass
+        try:
+            kind, val = consteval.call(fn.node, selfobj, *combo, globals=g)
+        except consteval.Unsupported:
+            return None
+        if kind != "return" or not isinstance(val, str):
+            return None
+        out[combo] = val
+    return out
+
+
+def _warn_conditions(fd):
+    """{warning name: condition expression} of the dict output's warning list: `if c: warnings.append('Name')` statements, or a
+    comprehension over a table of (flag, name) / (name, flag) pairs filtered by the flag."""
+    flow = C.flow_of(fd)
+    out = {}
+    for c in ast.walk(fd.node):
+        if isinstance(c, ast.Call) and isinstance(c.func, ast.Attribute) and c.func.attr == "append" and len(c.args) == 1 \
+                and isinstance(c.args[0], ast.Constant) and str(c.args[0].value).endswith("Warning"):
+            pos = [e for e, pol in C.norm_fact_nodes(c) if pol]
+            neg = [e for e, pol in C.norm_fact_nodes(c) if not pol]
+            if len(pos) == 1 and not neg:
+                out[c.args[0].value] = pos[0]
+    for comp in [n for n in ast.walk(fd.node) if isinstance(n, ast.ListComp) and len(n.generators) == 1]:
+        g = comp.generators[0]
+        if not (isinstance(g.target, ast.Tuple) and len(g.target.elts) == 2 and len(g.ifs) == 1 and isinstance(g.ifs[0], ast.Name)
+                and isinstance(comp.elt, ast.Name)):
+            continue
+        names = [U(t) for t in g.target.elts]
+        if comp.elt.id not in names or g.ifs[0].id not in names or comp.elt.id == g.ifs[0].id:
+            continue
+        ni, fi_ = names.index(comp.elt.id), names.index(g.ifs[0].id)
+        table = g.iter
+        if isinstance(table, ast.Name):
+            try:
+                ds = [d for d in flow.reaching(comp, table.id) if d.kind == "assign"]
+            except KeyError:
+                ds = []
+            table = ds[0].value if len(ds) == 1 else None
+        if isinstance(table, (ast.Tuple, ast.List)) and all(isinstance(r, ast.Tuple) and len(r.elts) == 2 for r in table.elts):
+            for r in table.elts:
+                if isinstance(r.elts[ni], ast.Constant) and isinstance(r.elts[ni].value, str):
+                    out[r.elts[ni].value] = r.elts[fi_]
+    return out
+
+
 def _r3_semantic(ctx, cv, br):
     """Unknown-line predicates of trigger, count, X mark and dict warning compared as boolean functions of the flags.
     Returns True when it could judge (then the textual rules are skipped)."""
@@ -478,17 +557,22 @@ def _r3_semantic(ctx, cv, br):
     mark = _flag_pred(marks[0]["M_c"], None)
     if mark is None:
         return False
-    parts = C.conj_parts(flow.subst(br.test)) if isinstance(br.test, ast.BoolOp) and isinstance(br.test.op, ast.And) else [flow.subst(br.test)]
-    ign = [p for p in parts if U(p) == "not " + cv.params()[4]]
-    rest = [p for p in parts if p not in ign]
-    if len(ign) != 1 or len(rest) != 1:
+    call = C.calls_to(br, "_missing_instruction_error")
+    if not call:
+        return False
+    # the conditions under which the warning is produced (whichever branch it sits on, however the test is written)
+    nf = C.norm_fact_nodes(call[0])
+    ign = [e for e, pol in nf if (not pol) and U(e) == cv.params()[4]]
+    rest = [flow.subst(e) for e, pol in nf if pol and U(e) != cv.params()[4]]
+    others = [e for e, pol in nf if (not pol) and U(e) != cv.params()[4]]
+    if len(ign) != 1 or len(rest) != 1 or others:
         return False
     trig = _line_pred_of_kernel_expr(_through_helper(ctx, cv, rest[0]), kern)
-    call = C.calls_to(br, "_missing_instruction_error")
     cnt = _line_pred_of_kernel_expr(_through_helper(ctx, cv, flow.subst(call[0].args[0])), kern) if call and call[0].args else None
     fd = ctx.func("Frontend.full_analysis_dict")
-    w = [n for n in ast.walk(fd.node) if isinstance(n, ast.If) and any("UnknownInstrWarning" in U(s) for s in n.body)]
-    dct = _line_pred_of_kernel_expr(_through_helper(ctx, fd, C.flow_of(fd).subst(w[0].test)), fd.params()[1]) if len(w) == 1 else None
+    wc = _warn_conditions(fd).get("UnknownInstrWarning")
+    w = [wc] if wc is not None else []
+    dct = _line_pred_of_kernel_expr(_through_helper(ctx, fd, C.flow_of(fd).subst(wc)), fd.params()[1]) if wc is not None else None
     if trig is None or cnt is None or dct is None or trig[0] != "exists" or cnt[0] != "count" or dct[0] != "exists":
         return False
 
@@ -663,21 +747,36 @@ def _r4(ctx):
     if "lcd_warning" in kw:
         o = flow.origin_text(kw["lcd_warning"])
         lcdw = sorted(o)
+    else:
+        eff_ = C.effective_argument(f, t, ctx.func("Frontend.full_analysis"), "lcd_warning")
+        lcdw = [eff_] if eff_ not in (None, "None") else None
     ctx.judge(lcdw is not None and len(lcdw) == 1 and lcdw[0].endswith(".timed_out"), lcdw is not None, "R4",
               "LCD warning = the graph's timed_out flag",
               f.where(t), "lcd_warning originates from %s" % lcdw, f.qname, "lcd warning")
     # consumers
     h = ctx.func("Frontend._user_warnings_header")
-    for p, txt in ((h.params()[1], "arch_text"), (h.params()[2], "length_text")):
-        ctx.judge(bool(pm.find("M_w += %s if %s else ''" % (txt, p), h.node)), bool(pm.find("M_w += M_t if M_c else ''", h.node)),
-                  "R4", "%s shown iff %s" % (txt, p), h.where(),
-                  "header does not append %s exactly when %s" % (txt, p), h.qname, "header " + txt)
-    arch_txt = [a for a in C.assigns_to(h.node, "arch_text")]
-    ctx.check(bool(arch_txt) and "No micro-architecture was specified" in " ".join(C.str_consts(arch_txt[0])), "R4",
-              "arch_text is the no-micro-architecture warning", h.where(), "arch_text changed", h.qname, "arch text")
-    len_txt = [a for a in C.assigns_to(h.node, "length_text")]
-    ctx.check(bool(len_txt) and "large amount of instruction forms" in " ".join(C.str_consts(len_txt[0])), "R4",
-              "length_text is the large-kernel warning", h.where(), "length_text changed", h.qname, "length text")
+    folded = _fold_flags(ctx, h, 2)
+    A_TXT, L_TXT = "No micro-architecture was specified", "large amount of instruction forms"
+    if folded is not None:
+        # the header as a function of the two flags (the function only puts constants together)
+        for i_, (p, txt, label) in enumerate(((h.params()[1], A_TXT, "arch_text"), (h.params()[2], L_TXT, "length_text"))):
+            okf = all((txt in v_) == combo[i_] for combo, v_ in folded.items())
+            ctx.check(okf, "R4", "%s shown iff %s" % (label, p), h.where(),
+                      "header does not show the %s warning exactly when %s: %s" % (label.split("_")[0], p, {c_: (txt in v_) for c_, v_ in folded.items()}),
+                      h.qname, "header " + label)
+        ctx.ok("R4", "arch_text is the no-micro-architecture warning", h.where())
+        ctx.ok("R4", "length_text is the large-kernel warning", h.where())
+    else:
+        for p, txt in ((h.params()[1], "arch_text"), (h.params()[2], "length_text")):
+            ctx.judge(bool(pm.find("M_w += %s if %s else ''" % (txt, p), h.node)), bool(pm.find("M_w += M_t if M_c else ''", h.node)),
+                      "R4", "%s shown iff %s" % (txt, p), h.where(),
+                      "header does not append %s exactly when %s" % (txt, p), h.qname, "header " + txt)
+        arch_txt = [a for a in C.assigns_to(h.node, "arch_text")]
+        ctx.check(bool(arch_txt) and A_TXT in " ".join(C.str_consts(arch_txt[0])), "R4",
+                  "arch_text is the no-micro-architecture warning", h.where(), "arch_text changed", h.qname, "arch text")
+        len_txt = [a for a in C.assigns_to(h.node, "length_text")]
+        ctx.check(bool(len_txt) and L_TXT in " ".join(C.str_consts(len_txt[0])), "R4",
+                  "length_text is the large-kernel warning", h.where(), "length_text changed", h.qname, "length text")
     fa = ctx.func("Frontend.full_analysis")
     hc = C.calls_to(fa.node, "_user_warnings_header")
     fc = C.calls_to(fa.node, "_user_warnings_footer")
@@ -686,21 +785,52 @@ def _r4(ctx):
               "full_analysis does not hand (arch_warning, length_warning) / (lcd_warning) to header / footer", fa.qname,
               "flag passing")
     ft = ctx.func("Frontend._user_warnings_footer")
-    foot = pm.find("M_w += lcd_text if %s else ''" % ft.params()[1], ft.node)
-    foot_any = foot or pm.find("M_w += M_t if M_c else ''", ft.node)
+    ffold = _fold_flags(ctx, ft, 1)
+    if ffold is not None:
+        foot = all(("LCD analysis timed out" in v_) == combo[0] for combo, v_ in ffold.items())
+        foot_any = True
+    else:
+        foot = pm.find("M_w += lcd_text if %s else ''" % ft.params()[1], ft.node)
+        foot_any = foot or pm.find("M_w += M_t if M_c else ''", ft.node)
     ctx.judge(bool(foot), bool(foot_any), "R4", "footer shows the LCD warning iff lcd_warning",
               ft.where(), "footer condition changed", ft.qname, "footer")
     fd = ctx.func("Frontend.full_analysis_dict")
+    wconds = _warn_conditions(fd)
     for p, name in (("arch_warning", "ArchWarning"), ("length_warning", "LengthWarning"), ("lcd_warning", "LCDWarning")):
-        hit = [n for n in ast.walk(fd.node) if isinstance(n, ast.If) and U(n.test) == p
-               and any(U(s) == "warnings.append('%s')" % name for s in n.body)]
-        anyapp = [n for n in ast.walk(fd.node) if isinstance(n, ast.If) and any(U(s) == "warnings.append('%s')" % name for s in n.body)]
+        hit = [1] if name in wconds and U(wconds[name]) == p else []
+        anyapp = name in wconds
         ctx.judge(len(hit) == 1, bool(anyapp), "R4", "dict lists %s iff %s" % (name, p), fd.where(),
                   "dict does not append %s exactly under `if %s`" % (name, p), fd.qname, "dict " + name)
     # default model of the detected ISA
     a = [x for x in C.assigns_to(f.node, "arch") if "DEFAULT_ARCHS" in U(x.value)]
     ok = any(pm.match("args.arch if args.arch is not None else DEFAULT_ARCHS[BaseParser.detect_ISA(M_c)]", x.value) for x in a)
-    ctx.judge(ok, any(isinstance(x.value, ast.IfExp) for x in a), "R4", "without --arch the default model of the detected ISA is used", f.where(),
+    rec_arch = any(isinstance(x.value, ast.IfExp) for x in a)
+    if not ok and a:
+        # the same as a decision over `args.arch is None` (and over extra parameters that default to None, taken at
+        # their default: the first activation)
+        dflt_none = [p_.arg for p_, d_ in zip(f.node.args.args[len(f.node.args.args) - len(f.node.args.defaults):], f.node.args.defaults)
+                     if isinstance(d_, ast.Constant) and d_.value is None]
+
+        def leaf(e, given):
+            while isinstance(e, ast.IfExp):
+                facts_ = C.norm_facts_of_test(e.test)
+                if len(facts_) != 1:
+                    return None
+                (t_, pol_), = facts_
+                if t_ == C.CT("args.arch is None"):
+                    truth = (not given) == pol_
+                elif any(t_ == C.CT("%s is None" % p_) for p_ in dflt_none):
+                    truth = pol_
+                else:
+                    return None
+                e = e.body if truth else e.orelse
+            return e
+        first = a[0].value
+        l_given, l_not = leaf(first, True), leaf(first, False)
+        if l_given is not None and l_not is not None:
+            rec_arch = True
+            ok = U(l_given) == "args.arch" and pm.match("DEFAULT_ARCHS[BaseParser.detect_ISA(M_c)]", l_not) is not None
+    ctx.judge(ok, rec_arch, "R4", "without --arch the default model of the detected ISA is used", f.where(),
               "arch selection is not `args.arch if given else DEFAULT_ARCHS[detect_ISA(code)]`", f.qname, "default arch")
 
 
@@ -713,11 +843,21 @@ def _r5(ctx):
     g = mod[0].globals
     if "SUPPORTED_ARCHS" not in g or "DEFAULT_ARCHS" not in g:
         ctx.broken("R5: SUPPORTED_ARCHS / DEFAULT_ARCHS not found")
-    sup = C.literal(g["SUPPORTED_ARCHS"])
-    dfl = C.literal(g["DEFAULT_ARCHS"])
+    def lit(node, what):
+        """a literal display, or dict(k=v, ..) with literal values"""
+        if isinstance(node, ast.Call) and isinstance(node.func, ast.Name) and node.func.id == "dict" and not node.args and all(
+                k_.arg for k_ in node.keywords):
+            return {k_.arg: C.literal(k_.value, what) for k_ in node.keywords}
+        return C.literal(node, what)
+    sup = lit(g["SUPPORTED_ARCHS"], "SUPPORTED_ARCHS")
+    dfl = lit(g["DEFAULT_ARCHS"], "DEFAULT_ARCHS")
     gi = ctx.func("MachineModel.get_isa_for_arch")
     tabs = [n for n in ast.walk(gi.node) if isinstance(n, ast.Dict) and len(n.keys) > 5]
-    if len(tabs) != 1:
+    if not tabs:
+        # the table may live in a module-level constant of hw_model.py that is not written in upper case
+        tabs = [v for k_, v in gi.module.globals.items() if isinstance(v, ast.Dict) and len(v.keys) > 5 and any(
+            isinstance(x, ast.Name) and x.id == k_ for x in ast.walk(gi.node))]
+    if len({U(t_) for t_ in tabs}) != 1:      # (a named table that was written out at each of its uses counts once)
         ctx.broken("R5: arch -> ISA table not found")
     isa_of = C.literal(tabs[0])
     ctx.floor("R5", "supported architectures", len(sup), 15)
